@@ -112,7 +112,7 @@ def run(tier, seed, ev):
         # --- three passes through the reader + the command line ------------------------------
         vs = variants(rng, tier)
         gts = {}
-        for ps in ("read", "check", "extract"):
+        for ps in ("read", "check", "extract", "mixed"):
             g = os.path.join(sc, "gt_%s.json" % ps)
             open(g, "w").write(json.dumps({"e": "Reset", "pass": ps}, separators=(",", ":")) + "\n")
             gts[ps] = g
@@ -126,6 +126,12 @@ def run(tier, seed, ev):
             jobs.append("exec %s %s path default - 0 bh %s" % (gts["read"], a, ",".join(["N,A4096"] * n)))
             jobs.append("exec %s %s path default - 0 h %s" % (gts["check"], a, ",".join(["N,C"] * n)))
             jobs.append("exec %s %s path default %s 0 h %s" % (gts["extract"], a, xd, ",".join(["N,X"] * (2 * n))))
+            xd2 = os.path.join(sc, "xm%d" % i)
+            os.makedirs(xd2)
+            mixed = []
+            for _ in range(n):
+                mixed += ["N", "R%d" % rng.choice([0, 1, 10, 64, 100000])] + [rng.choice(["C", "X"])]
+            jobs.append("exec %s %s path default %s 0 hs %s" % (gts["mixed"], a, xd2, ",".join(mixed)))
             names = [(m.path if m.kind != "dir" else m.path.rstrip(b"/") + b"/", m.kind == "file") for m in ms]
             meta.append((a, names, cls, meth))
             ev.cls((cls, meth))
@@ -139,7 +145,7 @@ def run(tier, seed, ev):
             if not idxs:
                 return None
             jf = os.path.join(sc, "jobs_%d.txt" % k)
-            open(jf, "w").write("\n".join(j for i in idxs for j in jobs[3 * i:3 * i + 3]) + "\n")
+            open(jf, "w").write("\n".join(j for i in idxs for j in jobs[4 * i:4 * i + 4]) + "\n")
             p = subprocess.run([rdrv, jf], capture_output=True, env=V.run_env(), timeout=1200)
             if p.returncode in (2, 3):
                 raise V.HarnessError("reader_drv: " + p.stderr.decode()[-400:])
@@ -152,9 +158,9 @@ def run(tier, seed, ev):
             tr = os.path.join(sc, "trace_%d.ndjson" % k)
             with open(tr, "w") as f:
                 for n_, i in enumerate(idxs):
-                    for e in execs[3 * n_:3 * n_ + 3]:
+                    for e in execs[4 * n_:4 * n_ + 4]:
                         f.write("\n".join(e) + "\n")
-                    if len(execs) < 3 * n_ + 3:
+                    if len(execs) < 4 * n_ + 4:
                         break
                     a, names, cls, meth = meta[i]
                     for mode in ("t", "x"):
